@@ -105,6 +105,13 @@ func scenario(t *testing.T, name, role string) {
 				at(&wg, d, send)
 			}
 			at(&wg, 400*time.Millisecond, func() { inbound(r, &pseq, &pmu, "logout", nil) })
+		case "resend_of_timer_messages": // messages sent by the timers are retransmitted while the timers keep firing
+			logon()
+			for k := 1; k <= 5; k++ {
+				d := time.Duration(k)*T + 300*time.Millisecond
+				at(&wg, d, func() { inbound(r, &pseq, &pmu, "resend", nil) })
+				at(&wg, time.Duration(k+1)*T, func() { inbound(r, &pseq, &pmu, "resend", nil) })
+			}
 		case "silent_peer_disconnect": // both timers expire, the disconnect races with senders and queries
 			logon()
 			at(&wg, 2*Tin+200*time.Millisecond, send)
